@@ -2,6 +2,7 @@ import KyupyVerif.Proofs.ResolveSome
 import KyupyVerif.Proofs.SubstKeys
 import KyupyVerif.Proofs.SubstGen17
 import KyupyVerif.Proofs.CopyTrim
+import KyupyVerif.Proofs.SubstTwin
 import KyupyVerif.Model.ResolveStatic
 /-! C10, audit 2 finding 6 (open part): the per-instance clauses of `resolveInstB` (evaluated along the run) follow from the STATIC
 hypothesis `resolveStaticB` on the ORIGINAL circuit.
@@ -264,5 +265,61 @@ theorem static_resolveInst (lib : Lib) (h0 : NNet) (hl : libOKB lib = true) (hst
             exact List.mem_map_of_mem h1
       · exact skip
     · exact skip
+
+/-! ### `StepFrame` is a theorem -/
+/-- `StepFrame` from the general certificate `SubstG` (kind, name, port status, input pins, `lineDrvHost`: a line driven by a surviving
+    host node was driven by it before) and the pin-list lengths `LenFrame` -/
+theorem stepFrame_of_substG {α : Type _} {z : α} {neg : α → α} {prim : String → α → α → α → α → α} {h m h' : NNet} {c : Nat}
+    {sh : Shape} {map : Array (Option Nat)} {R : Ren} (g : SubstG z neg prim h c m sh map h' R) (hlen : LenFrame h c h') :
+    StepFrame h c h' := by
+  intro d hd hdc
+  obtain ⟨j', hj', hR⟩ := g.hostSurj d hd hdc
+  obtain ⟨hk, hn, hp⟩ := g.hostNode j' hj' (by rw [hR]; exact hd) (by rw [hR]; exact hdc)
+  rw [hR] at hk hn hp
+  have hkey : h'.key j' = h.key d := by simp only [NNet.key, hn, NodeD.isFork, hk]
+  obtain ⟨l1, l2⟩ := hlen d j' hd hdc hj' hkey
+  refine ⟨j', hj', hk, hn, ?_, l1, l2, ?_⟩
+  · -- port status
+    have hiff : j' ∈ h'.net.io ↔ d ∈ h.net.io := by
+      rw [← g.io, List.mem_map]
+      constructor
+      · intro hm; exact ⟨j', hm, hR⟩
+      · rintro ⟨j0, h0, e0⟩
+        have := g.nodeInj j0 j' (g.wf'.io j0 h0) hj' (e0.trans hR.symm)
+        rw [← this]; exact h0
+    rw [Bool.eq_iff_iff, List.contains_iff_mem, List.contains_iff_mem]
+    exact hiff
+  · -- a pin driven by the node itself
+    intro p l' h1 h2
+    obtain ⟨hl', _, _⟩ := g.wf'.fwdIn j' hj' p l' h1
+    have hRd : R.node (h'.net.line l').driver = d := by rw [h2]; exact hR
+    obtain ⟨hlt, hne⟩ := g.lineDrvHost l' hl' (by rw [hRd]; exact hd) (by rw [hRd]; exact hdc)
+    have hdrv := (g.hostDrv l' hl' hlt hne).1
+    have hpin := hp p
+    simp only [NodeD.inPin] at hpin
+    rw [h1] at hpin
+    exact ⟨R.line l', hpin.symm, by rw [← hdrv, hRd]⟩
+
+/-- **one substitution keeps every host node other than the cell** (kind, name, port status, pin-list lengths, self-driven pins) -/
+theorem substitute_stepFrame (h m h' : NNet) (c : Nat) (hyp : substSomeHypB h c m = true) (he : substitute h c m = some h') :
+    StepFrame h c h' := by
+  simp only [substSomeHypB, Bool.and_eq_true, decide_eq_true_eq, Bool.not_eq_true'] at hyp
+  obtain ⟨⟨⟨⟨⟨⟨⟨⟨⟨⟨h1, h2⟩, h3⟩, h4⟩, h5⟩, h6⟩, h7⟩, h8⟩, h9⟩, h10⟩, h11⟩ := hyp
+  have har : ∀ sh, implShape m = some sh →
+      (h.net.node c).ins.length ≤ sh.inPorts.length ∧ (h.net.node c).outs.length ≤ sh.outLines.length := fun sh hs => by
+    simp only [arityOKB, hs, Bool.and_eq_true, decide_eq_true_eq] at h11
+    exact h11
+  have hlen := substitute_lenFrame h m h' c (WFm.of_wfNoTrail h1) (FD_of_forksDenseB h2) (WF.of_wf h3) h4 (by simpa using h5) h6 h7 h8
+    h9 h10 har he
+  obtain ⟨sh, map, R, _, g⟩ := substitute_general false (!·) (fun _ _ _ _ _ => false) h m h' c (WFm.of_wfNoTrail h1) (WF.of_wf h3) h4
+    (by simpa using h5) h6 h7 h9 he
+  exact stepFrame_of_substG g hlen
+
+/-- **static hypothesis ⇒ `resolveInstB`** for the whole key list of the original circuit -/
+theorem resolveInstB_of_static (lib : Lib) (h0 : NNet) (hl : libOKB lib = true) (hw : h0.wfNoTrail = true)
+    (hf : forksDenseB h0.net = true) (hst : resolveStaticB lib h0 = true) : resolveInstB lib h0.keys h0 = true := by
+  have wm := WFm.of_wfNoTrail hw
+  exact static_resolveInst lib h0 hl hst (fun cur c m nxt hyp he => substitute_stepFrame cur m nxt c hyp he) h0.keys h0 hw hf wm.nodup
+    (fun k hk => hk) (fun k _ d hd _ => ⟨d, hd, NSim.refl h0 d⟩) (fun k' hk' => Or.inl hk')
 
 end KV.Transform
